@@ -119,10 +119,12 @@ def gen_cloud(rnd, fudge):
     atoms = []
     box = rnd.choice([0.5, 0.8, 1.2])
     nres = rnd.randint(1, max(1, n // 4))
+    resid0 = rnd.choice([1, 1, 1, 0, -1])        # residue number 0 and negative numbers are legal
+    chains = rnd.choice(['AB', 'AB', ['A', ''], ['', '']])
     for i in range(n):
         el = rnd.choice(elements) if rnd.random() < 0.6 else rnd.choice(['C', 'H', 'O', 'N', 'S'])
         atoms.append({'mol': 0 if rnd.random() < 0.7 else 1, 'tag': i, 'atomname': '%s%d' % (el, i), 'element': el, 'resname': 'LIG',
-                      'resid': rnd.randrange(nres) + 1, 'chain': rnd.choice('AB'),
+                      'resid': rnd.randrange(nres) + resid0, 'chain': rnd.choice(chains),
                       'pos': [rnd.uniform(0, box), rnd.uniform(0, box), rnd.uniform(0, box)]})
     for _ in range(rnd.randint(1, 6)):
         a, c = rnd.sample(atoms, 2)
